@@ -35,6 +35,9 @@ def translate():
 
 
 # ---------------------------------------------------------------- pieces and mutations
+LOOKALIKE = {"S": ["\u017f"], "I": ["\u0131", "\u0130"], "K": ["\u212a"]}
+
+
 def pieces_of(rd):
     """[(kind, text, info)] kind in start/end/aggend/data/ws; info = tag name for tags"""
     out = []
@@ -89,6 +92,25 @@ def mutants(rng, rd, ws0, names, byte_budget, per_kind):
         for nm in pick([n for n in names if n != ps[i][2]], 2):
             q = list(ps); q[i] = (ps[i][0], "</%s>" % nm, nm)
             yield ("endtag-renamed", ws0 + join(q))
+    # ---- an end tag (or a start tag) misspelled with a look-alike: the case-folding partners of ASCII letters (long s, dotless i, dotted I, KELVIN SIGN),
+    #      the lower-case and the full-width letter.  None of them is the tag.
+    #      (aggregate tags: a data element's misspelled end tag is simply no end tag, and unmatched markup is skipped - see unmatched_markup_is_skipped)
+    starts = [i for i, p in enumerate(ps) if p[0] == "start" and not (i + 1 < len(ps) and ps[i + 1][0] == "data")
+              and not (i + 2 < len(ps) and ps[i + 1][0] == "ws" and ps[i + 2][0] == "data")]
+    for (idxs, kind, n) in ((aggends, "endtag-lookalike", per_kind), (starts, "starttag-lookalike", max(2, per_kind // 2))):
+        for i in pick(idxs, n):
+            nm = ps[i][2]
+            cands = []
+            for k, ch in enumerate(nm):
+                if ch in LOOKALIKE:
+                    cands += [(k, x) for x in LOOKALIKE[ch]]
+                if "A" <= ch <= "Z":
+                    cands += [(k, ch.lower()), (k, chr(ord(ch) - 65 + 0xFF21))]
+            special = [c for c in cands if c[1] in "\u017f\u0131\u0130\u212a"]
+            for (k, x) in pick(special, 2) + pick(cands, 1):
+                bad = nm[:k] + x + nm[k + 1:]
+                q = list(ps); q[i] = (ps[i][0], ("</%s>" if ps[i][0] != "start" else "<%s>") % bad, bad)
+                yield (kind, ws0 + join(q))
     # ---- transposition of two end tags with different names (adjacent ones, and one random pair)
     pairs = []
     for a, b in zip(ends, ends[1:]):
@@ -216,7 +238,7 @@ def run(rep, tier, rng):
         if out[0] == "ok" and out[1] is not None:
             fail("tree-returned:" + kind, "TreeBuilder accepted %r (%s; reference reader: %s) and returned %r" % (m[:300], kind, improper, out[1] if len(m) < 300 else "a tree"),
                  text=m, kind=kind, observed=out)
-        if via_tree and m.isascii() and "\r" not in m:
+        if (via_tree or "lookalike" in kind) and "\r" not in m:
             o2 = S.impl_ofxtree(P, m, 102)
             rep.count(("ofxtree", m), nontrivial=False, kind="via-OFXTree.parse")
             if o2[0] == "ok" and o2[1] is not None:
@@ -233,11 +255,14 @@ def run(rep, tier, rng):
     docs = []
     small = [d for d in S.small_docs(max_nodes=3) if d[0] == "agg"]
     for d in (small if thorough else rng.sample(small, 30)):
-        docs.append((d, 200, 6))
+        docs.append((d, 200 if thorough else 45, 6))
     for _ in range(900 if thorough else 26):
-        docs.append((S.rand_doc(rng, rng.randint(3, 16), rng.randint(1, 5)), 120 if thorough else 40, 8 if thorough else 4))
+        docs.append((S.rand_doc(rng, rng.randint(3, 16), rng.randint(1, 5)), 120 if thorough else 24, 8 if thorough else 4))
     for _ in range(100 if thorough else 4):
         docs.append((S.rand_doc(rng, rng.randint(40, 120), 10, tags=rng.sample(S.TAG_POOL, 6)), 40, 12 if thorough else 5))
+    ofx_tags = ["STMTRS", "BANKTRANLIST", "STMTTRN", "SIGNONMSGSRSV1", "INV401K", "LINK", "SONRS", "KIND"]
+    for _ in range(60 if thorough else 5):      # names with the letters that have non-ASCII case-folding partners (S, I, K)
+        docs.append((S.rand_doc(rng, rng.randint(4, 12), 4, tags=ofx_tags), 30, 6 if thorough else 4))
     n_valid = 0
     for (d, byte_budget, per_kind) in docs:
         for style in ((None, "xml", "sgml", "sgml-cdata", "pretty") if S.size(d) <= 16 else (None, "sgml-cdata")):
@@ -263,7 +288,8 @@ def run(rep, tier, rng):
 
     rep.rule = ("mutation stream over valid renderings (documents of <= 3 nodes over 2 tags, random documents to 16 and to 120 nodes; XML, SGML, pretty-printed and "
                 "free mixtures incl. CDATA): every byte truncation before the final '>' (sampled bytes + all token boundaries for long texts), every aggregate "
-                "end-tag deletion, end-tag renaming (names of the document and a fresh one), transposition of end tags, duplication, a stray end tag at every piece "
+                "end-tag deletion, end-tag renaming (names of the document and a fresh one), end and start tags misspelled with a look-alike letter (long s, dotless i, dotted I, KELVIN SIGN, "
+                "lower case, full width; also through OFXTree.parse with a UTF-8 OFXv2 header), transposition of end tags, duplication, a stray end tag at every piece "
                 "boundary, stray text after end tags and aggregate start tags, stray text directly after the CDATA section of a data element with or without end tag "
                 "(there the parser must refuse or keep the text, never drop it), a second top-level element; after refused mutants the valid body is parsed "
                 "again with a new TreeBuilder and must still give its tree. A mutant is in the property's domain when an independent "
